@@ -71,10 +71,10 @@ theorem OutOK.no141 {m : OutMsg} (h : OutOK m) : m.f.get? 141 = none :=
   get?_none_of_tags _ _ (fun p hp => (h.ok.f p hp).2.1)
 
 theorem outOK_mk (k : String) (f : Fields) (ha : isAdminKind k = true) (hk4 : k ≠ "4")
-    (hf : ∀ p ∈ f, p.2 ≠ "" ∧ p.1 ≠ 141 ∧ p.1 ≠ 9001 ∧ p.1 ≠ 9000)
+    (hf : ∀ p ∈ f, p.2 ≠ "" ∧ p.1 ≠ 141 ∧ p.1 ≠ 9001 ∧ p.1 ≠ 9000 ∧ p.1 ≠ 123)
     (hrr : k = "2" → ∃ x y : Int, Fields.get? f 7 = some (toString x) ∧ Fields.get? f 16 = some (toString y)) : OutOK (mkOut k f) := by
   refine ⟨⟨?_, ?_, hk4, ?_, hrr⟩, ha⟩
-  · intro p hp; have := hf p hp; exact ⟨this.1, this.2.1, this.2.2.1, fun _ => this.2.2.2⟩
+  · intro p hp; have := hf p hp; exact ⟨this.1, this.2.1, this.2.2.1, fun _ => this.2.2.2.1, this.2.2.2.2⟩
   · intro h; simp only [mkOut] at h; rw [h] at ha; revert ha; decide
   · intro h; simp only [mkOut] at h; rw [h] at ha; cases ha
 
@@ -83,15 +83,15 @@ theorem outOK_heartbeat : OutOK (mkOut "0" []) := outOK_mk _ _ (by decide) (by d
 theorem outOK_testRequest : OutOK (mkOut "1" [(112, "TEST")]) :=
   outOK_mk _ _ (by decide) (by decide) (by intro p hp; simp only [List.mem_singleton] at hp; subst hp; decide) (fun h => absurd h (by decide))
 theorem outOK_hbReply (id : String) (h : id ≠ "") : OutOK (mkOut "0" [(112, id)]) :=
-  outOK_mk _ _ (by decide) (by decide) (by intro p hp; simp only [List.mem_singleton] at hp; subst hp; exact ⟨h, by simp, by simp, by simp⟩)
+  outOK_mk _ _ (by decide) (by decide) (by intro p hp; simp only [List.mem_singleton] at hp; subst hp; exact ⟨h, by simp, by simp, by simp, by simp⟩)
     (fun h => absurd h (by decide))
 theorem outOK_resendRequest (b e : Int) : OutOK (mkOut "2" [(7, toString b), (16, toString e)]) :=
   outOK_mk _ _ (by decide) (by decide) (by
     intro p hp
     simp only [List.mem_cons, List.not_mem_nil, or_false] at hp
     rcases hp with rfl | rfl
-    · exact ⟨toString_int_ne_empty _, by simp, by simp, by simp⟩
-    · exact ⟨toString_int_ne_empty _, by simp, by simp, by simp⟩)
+    · exact ⟨toString_int_ne_empty _, by simp, by simp, by simp, by simp⟩
+    · exact ⟨toString_int_ne_empty _, by simp, by simp, by simp, by simp⟩)
     (fun _ => ⟨b, e, by simp [get?_cons], by simp [get?_cons]⟩)
 
 theorem outOK_logon (s : Sess) : OutOK (logonMsg s false) := by
@@ -100,12 +100,12 @@ theorem outOK_logon (s : Sess) : OutOK (logonMsg s false) := by
   intro p hp
   simp only [Bool.false_eq_true, if_false, List.append_nil, List.mem_append, List.mem_singleton] at hp
   rcases hp with rfl | hp
-  · exact ⟨toString_int_ne_empty _, by simp, by simp, by simp⟩
+  · exact ⟨toString_int_ne_empty _, by simp, by simp, by simp, by simp⟩
   · split at hp
     · cases hp
     · rename_i hne
       simp only [List.mem_singleton] at hp; subst hp
-      refine ⟨?_, by simp, by simp, by simp⟩
+      refine ⟨?_, by simp, by simp, by simp, by simp⟩
       intro h
       have h' : s.cfg.applVer = "" := h
       rw [h'] at hne; exact hne (by decide)
@@ -141,15 +141,15 @@ theorem reverseRoute_ok (im : InMsg) : ∀ p ∈ reverseRoute im, routeTag p.1 =
 
 theorem outOK_reject (cfg : Cfg) (im : InMsg) (reason : Nat) (refTag : Option Nat) (hk : kindOf im ≠ "") :
     OutOK (rejectMsg cfg im reason refTag false) := by
-  have hroute : ∀ p ∈ (reverseRoute im).filter (fun p => p.1 != 49 && p.1 != 56), p.2 ≠ "" ∧ p.1 ≠ 141 ∧ p.1 ≠ 9001 ∧ p.1 ≠ 9000 := by
+  have hroute : ∀ p ∈ (reverseRoute im).filter (fun p => p.1 != 49 && p.1 != 56), p.2 ≠ "" ∧ p.1 ≠ 141 ∧ p.1 ≠ 9001 ∧ p.1 ≠ 9000 ∧ p.1 ≠ 123 := by
     intro p hp
     have := reverseRoute_ok im p (List.mem_filter.1 hp).1
-    refine ⟨this.2, ?_, ?_, ?_⟩ <;> (intro h; rw [h] at this; exact absurd this.1 (by decide))
-  have hseq : ∀ p ∈ (match getInt im 34 with | .val i => ([(45, toString i)] : Fields) | _ => []), p.2 ≠ "" ∧ p.1 ≠ 141 ∧ p.1 ≠ 9001 ∧ p.1 ≠ 9000 := by
+    refine ⟨this.2, ?_, ?_, ?_, ?_⟩ <;> (intro h; rw [h] at this; exact absurd this.1 (by decide))
+  have hseq : ∀ p ∈ (match getInt im 34 with | .val i => ([(45, toString i)] : Fields) | _ => []), p.2 ≠ "" ∧ p.1 ≠ 141 ∧ p.1 ≠ 9001 ∧ p.1 ≠ 9000 ∧ p.1 ≠ 123 := by
     intro p hp
     split at hp
     · simp only [List.mem_singleton] at hp; subst hp
-      exact ⟨toString_int_ne_empty _, by simp, by simp, by simp⟩
+      exact ⟨toString_int_ne_empty _, by simp, by simp, by simp, by simp⟩
     · cases hp
   unfold rejectMsg
   simp only [Bool.false_eq_true, if_false]
@@ -162,13 +162,13 @@ theorem outOK_reject (cfg : Cfg) (im : InMsg) (reason : Nat) (refTag : Option Na
     · split at hp
       · cases hp
       · simp only [List.mem_singleton] at hp; subst hp
-        exact ⟨toString_nat_ne_empty _, by simp, by simp, by simp⟩
+        exact ⟨toString_nat_ne_empty _, by simp, by simp, by simp, by simp⟩
     · split at hp
       · simp only [List.mem_singleton] at hp; subst hp
-        exact ⟨toString_nat_ne_empty _, by simp, by simp, by simp⟩
+        exact ⟨toString_nat_ne_empty _, by simp, by simp, by simp, by simp⟩
       · cases hp
     · simp only [List.mem_singleton] at hp; subst hp
-      exact ⟨hk, by simp, by simp, by simp⟩
+      exact ⟨hk, by simp, by simp, by simp, by simp⟩
     · exact hseq p hp
   · refine outOK_mk _ _ (by decide) (by decide) ?_ (fun h => absurd h (by decide))
     intro p hp
